@@ -204,9 +204,13 @@ fn file_leg(src: &mut Src, ctx: &mut RunCtx, solo: &Arc<Solo>) -> RunResult {
     ctx.count("file_leg");
     let kind = src.below(4); // 0 u8, 1 u32, 2 f32, 3 Complex
     let esz = [1usize, 4, 4, 8][kind];
-    let small = *src.pick(&[4096usize, 8192]);
-    let cap = small / esz;
+    // Now and then a stream of the default size with more than a megabyte in
+    // one window (content from a generator, not one decision per byte).
+    let big = src.chance(1, 40);
+    let small = if big { 0 } else { *src.pick(&[4096usize, 8192]) };
+    let cap = if big { 4_096_000 / esz } else { small / esz };
     let n = match src.below(7) {
+        _ if big => (1 << 20) / esz + 1 + src.below(cap),
         0 => 0,
         1 => 1,
         2 => cap - 1,
@@ -214,9 +218,16 @@ fn file_leg(src: &mut Src, ctx: &mut RunCtx, solo: &Arc<Solo>) -> RunResult {
         4 => 3 * cap + src.below(17),
         _ => src.range(1, 2 * cap),
     };
-    let raw: Vec<u8> = (0..n * esz).map(|_| src.below(256) as u8).collect();
-    let wchunks = gen_chunks(src, esz);
-    let rchunks = gen_chunks(src, esz);
+    let raw: Vec<u8> = if big {
+        ctx.count("file_leg_default_size_stream");
+        let mut r = crate::src::Rng::new(src.bits());
+        (0..n * esz).map(|_| (r.next() >> 56) as u8).collect()
+    } else {
+        (0..n * esz).map(|_| src.below(256) as u8).collect()
+    };
+    let big_chunks = |src: &mut Src| if src.coin() { vec![src.range(60_000, 1 << 21)] } else { vec![] };
+    let wchunks = if big { big_chunks(src) } else { gen_chunks(src, esz) };
+    let rchunks = if big { big_chunks(src) } else { gen_chunks(src, esz) };
     let mode = src.below(3);
     ctx.ev(|| format!("C14 file leg type #{kind} n {n} stream {small} write_chunks {wchunks:?} read_chunks {rchunks:?} mode {mode}"));
     if ctx.sample.is_none() {
@@ -235,7 +246,12 @@ fn file_leg(src: &mut Src, ctx: &mut RunCtx, solo: &Arc<Solo>) -> RunResult {
                 2 => 3 * raw.len() + 5,
                 _ => src.below(raw.len() + 2),
             };
-            Some((0..l).map(|_| src.below(256) as u8).collect())
+            if big {
+                let mut r = crate::src::Rng::new(src.bits());
+                Some((0..l).map(|_| (r.next() >> 56) as u8).collect())
+            } else {
+                Some((0..l).map(|_| src.below(256) as u8).collect())
+            }
         }
         2 => Some((0..esz * src.below(9)).map(|_| src.below(256) as u8).collect()),
         _ => None,
@@ -880,8 +896,12 @@ impl CrashParams {
     fn draw(src: &mut Src) -> Self {
         let mode = src.below(3);
         let nocopy = src.chance(1, 4);
-        let stream = *src.pick(&[4096usize, 8192]);
+        // Now and then a stream of the default size (4096000 bytes) holding
+        // more than a megabyte when the sink is called.
+        let big = src.chance(1, 30);
+        let stream = if big { 0 } else { *src.pick(&[4096usize, 8192]) };
         let n = match src.below(5) {
+            _ if big => (1 << 20) + 1 + src.below(3_500_000),
             0 => src.range(1, 20),
             1 => stream + 1,
             2 => 3 * stream + src.below(100),
@@ -907,7 +927,14 @@ impl CrashParams {
             None
         };
         let eintr = if crash.is_none() && src.chance(1, 2) { Some(src.below(4)) } else { None };
-        let write_chunks = if src.chance(1, 3) { gen_chunks(src, 1) } else { vec![] };
+        let write_chunks = if big {
+            // (not byte-at-a-time: that would be millions of system calls)
+            if src.coin() { vec![src.range(60_000, 1 << 21)] } else { vec![] }
+        } else if src.chance(1, 3) {
+            gen_chunks(src, 1)
+        } else {
+            vec![]
+        };
         let pre = mode != 0;
         let kill_after_work = if crash.is_none() && src.chance(2, 3) { Some(src.below(6)) } else { None };
         let write_error = if crash.is_none() && kill_after_work.is_none() && !nocopy && src.chance(1, 2) {
@@ -957,6 +984,9 @@ fn crash_run(src: &mut Src, ctx: &mut RunCtx) -> RunResult {
     }
     let desc = format!("{} mode {} n {} crash {:?} kill_after_work {:?} eintr {:?} write_error {:?} write_chunks {:?}", if p.nocopy { "NoCopyFileSink" } else { "FileSink" }, ["Create", "Overwrite", "Append"][p.mode], p.n, p.crash, p.kill_after_work, p.eintr, p.write_error, p.write_chunks);
     ctx.ev(|| desc.clone());
+    if p.stream == 0 && !p.nocopy {
+        ctx.count("default_size_stream_over_1MiB_of_input");
+    }
     if ctx.sample.is_none() {
         ctx.sample = Some(json!({"crash_run": desc}));
     }
@@ -1477,6 +1507,10 @@ fn mapping_history(src: &mut Src, ctx: &mut RunCtx) -> RunResult {
     live32.clear();
     let _st = sys::disarm();
     let ledger = sys::ledger_stop();
+    let twice = sys::double_unmaps();
+    if !twice.is_empty() {
+        return Err(Violation::new("C18:unmapped-twice", format!("{} ranges that had been stream mappings were unmapped a second time after their release (by then the addresses may belong to someone else): {:?} ({desc:?})", twice.len(), twice.iter().take(4).map(|(a, l)| format!("{a:#x}+{l}")).collect::<Vec<_>>())));
+    }
     result?;
     ctx.nontrivial = true;
     if !ledger.is_empty() {
